@@ -12,6 +12,12 @@ type batchTable struct {
 	len      uint32
 }
 
+// relationBatchTable is a helper struct for collecting tables for batch-setting relations.
+type relationBatchTable struct {
+	batchTable
+	changeMask bitMask
+}
+
 // newEntity creates a new entity.
 // Returns the entity and its bit.mask.
 func (w *World) newEntity(ids []ID, relations []relationID) (Entity, *bitMask) {
@@ -431,85 +437,81 @@ func (w *World) setRelationsBatch(batch *Batch, relations []relationID, fn func(
 	// Deferred: a rejected batch (e.g. a removed entity as target)
 	// must not leave the world locked.
 	defer w.unlock(lock)
-	hasObserver := w.storage.observers.HasObservers(OnAddRelations) || w.storage.observers.HasObservers(OnRemoveRelations)
+	hasRemoveObserver := w.storage.observers.HasObservers(OnRemoveRelations)
+	hasAddObserver := w.storage.observers.HasObservers(OnAddRelations)
 
+	// Plan the entire batch before anything is moved or any event is fired:
+	// find or create the target table of every non-empty table that changes.
 	tables := w.storage.getBatchTables(batch)
-	lengths := w.storage.slices.ints
-	var totalEntities uint32 = 0
+	plans := make([]relationBatchTable, 0, len(tables))
 	for _, tableID := range tables {
 		table := &w.storage.tables[tableID]
-		lengths = append(lengths, uint32(table.Len()))
-		totalEntities += uint32(table.Len())
-	}
-
-	for i, tableID := range tables {
-		tableLen := lengths[i]
-		if tableLen == 0 {
+		if table.Len() == 0 {
 			continue
 		}
-		table := &w.storage.tables[tableID]
-		w.setRelationsTable(table, int(tableLen), relations, fn, hasObserver)
+		plan := relationBatchTable{batchTable: batchTable{oldTable: tableID, len: uint32(table.Len())}}
+		var maskPointer *bitMask
+		if hasRemoveObserver || hasAddObserver {
+			maskPointer = &plan.changeMask
+		}
+		newRelations, changed := w.storage.getExchangeTargets(table, relations, maskPointer)
+		if !changed {
+			continue
+		}
+		oldArch := &w.storage.archetypes[table.archetype]
+		newTable, ok := oldArch.GetTable(&w.storage, newRelations)
+		if !ok {
+			newTable = w.storage.createTable(oldArch, newRelations)
+		}
+		plan.newTable = newTable.id
+		plans = append(plans, plan)
 	}
-
-	w.storage.slices.ints = lengths[:0]
 	w.storage.slices.tables = tables[:0]
 
+	// All removal events, before any entity of the batch is changed.
+	if hasRemoveObserver {
+		for i := range plans {
+			plan := &plans[i]
+			oldTable := &w.storage.tables[plan.oldTable]
+			newMask := &w.storage.archetypes[w.storage.tables[plan.newTable].archetype].mask
+			earlyOut := true
+			for j := uintptr(0); j < uintptr(plan.len); j++ {
+				if !w.storage.observers.FireSetRelations(OnRemoveRelations, oldTable.GetEntity(j), &plan.changeMask, newMask, earlyOut) {
+					break
+				}
+				earlyOut = false
+			}
+		}
+	}
+
+	for i := range plans {
+		plan := &plans[i]
+		oldTable := &w.storage.tables[plan.oldTable]
+		newTable := &w.storage.tables[plan.newTable]
+		plan.start = uint32(newTable.Len())
+		w.storage.moveEntities(oldTable, newTable, plan.len)
+		if fn != nil {
+			fn(plan.newTable, int(plan.start), int(plan.len))
+		}
+	}
+
+	// All add events, after all entities of the batch are changed.
+	if hasAddObserver {
+		for i := range plans {
+			plan := &plans[i]
+			newTable := &w.storage.tables[plan.newTable]
+			newMask := &w.storage.archetypes[newTable.archetype].mask
+			earlyOut := true
+			for j := uintptr(plan.start); j < uintptr(plan.start+plan.len); j++ {
+				if !w.storage.observers.FireSetRelations(OnAddRelations, newTable.GetEntity(j), &plan.changeMask, newMask, earlyOut) {
+					break
+				}
+				earlyOut = false
+			}
+		}
+	}
+
 	w.storage.registerTargets(relations)
-}
-
-// setRelationsTable batch-changes entity relations for a single table.
-func (w *World) setRelationsTable(oldTable *table, oldLen int, relations []relationID, fn func(table tableID, start, len int), hasObserver bool) {
-	var changeMask bitMask
-	var maskPointer *bitMask
-	if hasObserver {
-		maskPointer = &changeMask
-	}
-	newRelations, changed := w.storage.getExchangeTargets(oldTable, relations, maskPointer)
-
-	if !changed {
-		return
-	}
-
-	oldArch := &w.storage.archetypes[oldTable.archetype]
-	newTable, ok := oldArch.GetTable(&w.storage, newRelations)
-	if !ok {
-		newTable = w.storage.createTable(oldArch, newRelations)
-		// Get the old table again, as pointers may have changed.
-		oldTable = &w.storage.tables[oldTable.id]
-	}
-
-	// TODO: move this before the entire batch?
-	if w.storage.observers.HasObservers(OnRemoveRelations) {
-		newMask := &w.storage.archetypes[newTable.archetype].mask
-		len := uintptr(oldTable.len)
-		earlyOut := true
-		for i := uintptr(0); i < len; i++ {
-			if !w.storage.observers.FireSetRelations(OnRemoveRelations, oldTable.GetEntity(i), &changeMask, newMask, earlyOut) {
-				break
-			}
-			earlyOut = false
-		}
-	}
-
-	startIdx := newTable.Len()
-	w.storage.moveEntities(oldTable, newTable, uint32(oldLen))
-
-	if fn != nil {
-		fn(newTable.id, startIdx, oldLen)
-	}
-
-	// TODO: move this after the entire batch?
-	if w.storage.observers.HasObservers(OnAddRelations) {
-		newMask := &w.storage.archetypes[newTable.archetype].mask
-		earlyOut := true
-		for i := range oldLen {
-			index := uintptr(startIdx + i)
-			if !w.storage.observers.FireSetRelations(OnAddRelations, newTable.GetEntity(index), &changeMask, newMask, earlyOut) {
-				break
-			}
-			earlyOut = false
-		}
-	}
 }
 
 // componentID returns the component ID for a runtime component type.
